@@ -30,6 +30,8 @@ import c16_grammar as GR  # noqa: E402
 
 MODULE = "UtapModel.Props.C07"
 POOL = ["a", "b", "c"]
+TY = "ty"                 # declared as a *typedef* at global level; inner scopes may redeclare it as a variable / binder (the lexer's
+NAMES = POOL + [TY]       # is_type feedback must follow the same innermost-first rule as expression identifiers)
 
 
 class Gen:
@@ -44,6 +46,7 @@ class Gen:
         self.open = [set()]   # names declared per open scope (only used to bias use sites)
         self.uses = 0
         self.decls = []       # (name, K, depth) of every declaration, in order
+        self.tyvar = [False]  # per open scope: TY is declared as a variable / binder here
 
     def newk(self):
         self.k += 1
@@ -54,6 +57,8 @@ class Gen:
         self.ev.append("D:" + name)
         self.ks.append(k)
         self.open[-1].add(name)
+        if name == TY and len(self.open) > 1:
+            self.tyvar[-1] = True
         self.decls.append((name, k, len(self.open)))
         return k
 
@@ -65,6 +70,7 @@ class Gen:
             self.ks.append(k)
         self.ev.append("E:" + ",".join(binders))
         self.open.append(set(binders))
+        self.tyvar.append(TY in binders)
         for bn, k in zip(binders, ks):
             self.decls.append((bn, k, len(self.open)))
         return ks
@@ -72,9 +78,16 @@ class Gen:
     def leave(self):
         self.ev.append("L")
         self.open.pop()
+        self.tyvar.pop()
+
+    def binder(self):
+        """name of a quantifier / iteration / select binder or parameter"""
+        return TY if self.r.random() < 0.12 else self.r.choice(POOL)
 
     def use(self):
         n = self.r.choice(POOL)
+        if any(self.tyvar) and self.r.random() < 0.3:
+            n = TY            # only where the innermost declaration of TY is a variable (a use of the typedef would be a type error)
         self.ev.append("U:" + n)
         self.uses += 1
         return n
@@ -90,7 +103,7 @@ class Gen:
             return "%s + %d" % (self.use(), r.randint(0, 3))
         if c < 0.9:
             return str(r.randint(0, 3))
-        b = r.choice(POOL)
+        b = self.binder()
         # quantifier binder: a scope with one declaration
         ks = None
         pre = "(%s (%s : int[0,%%d]) (" % (r.choice(["forall", "exists"]), b)
@@ -102,11 +115,14 @@ class Gen:
     def decl(self, allow_init=True):
         r = self.r
         n = r.choice(POOL)
+        if len(self.open) > 1 and r.random() < 0.12:
+            n = TY
         if self.clean:
             free = [x for x in POOL if x not in self.open[-1]]
             if not free:
                 return ""
-            n = r.choice(free)
+            if n != TY or TY in self.open[-1]:
+                n = r.choice(free)
         init = ""
         if allow_init and not self.clean and r.random() < 0.4:
             init = " = " + self.expr()          # the initialiser is parsed before the name is declared
@@ -130,7 +146,7 @@ class Gen:
             body = self.body(depth + 1)
             self.leave()
             return "{ %s }" % body
-        x = r.choice(POOL)
+        x = self.binder()
         ks = self.enter([x])
         if r.random() < 0.5:
             body = "gz = %s;" % self.expr()
@@ -143,7 +159,11 @@ class Gen:
 
     def function(self, name):
         r = self.r
-        ps = [r.choice(POOL) for _ in range(r.choice([0, 1, 1, 2]))]
+        ps = []
+        for _ in range(r.choice([0, 1, 1, 2])):
+            pn = r.choice(POOL)      # the grammar wants a NonTypeId here: a parameter cannot reuse a type name
+            if pn not in ps or not self.clean:
+                ps.append(pn)
         ks = self.enter(ps)
         body = self.body(0)
         self.leave()
@@ -209,7 +229,7 @@ def render_xta(m):
                 body += "guard %s; " % e["guard"]
             if e["assign"]:
                 body += "assign %s; " % e["assign"]
-            tr.append("%s -> %s { %s}" % (names[e["src"]], names[e["dst"]], body))
+            tr.append("%s -> %s { %s}" % (names[e["src"]], e.get("dst_name") or names[e["dst"]], body))
         o.append("trans " + ",\n ".join(tr) + ";")
         o.append("}")
     o += m["system"]
@@ -221,7 +241,8 @@ def gen_case(r):
     """model + script; partial instances are generated inline so that every use is recorded in text order"""
     clean = r.random() < 0.4
     g = Gen(r, clean)
-    m = {"globals": ["int gz;"], "templates": [], "system": [], "processes": [], "queries": [], "clean": clean}
+    m = {"globals": ["int gz;"], "templates": [], "system": [], "processes": [], "queries": [], "clean": clean, "chains": []}
+    m["globals"].append("typedef int[0,%d] %s;" % (g.declare(TY), TY))      # a type name that inner scopes may shadow with a variable
     if clean:
         m["globals"] += [g.decl() for _ in POOL]
     m["globals"] += g.block_decls("g", r.randint(1, 5))
@@ -245,14 +266,24 @@ def gen_case(r):
             t["decls"].append("int[0,%s] yd%d;" % (ps[0], ti))
             g.ev.append("U:" + ps[0])
             g.uses += 1
+            if len(ps) > 1:
+                t["decls"].append("int[0,%s] ye%d;" % (ps[-1], ti))
+                g.ev.append("U:" + ps[-1])
+                g.uses += 1
         for li in range(r.randint(1, 3)):
             inv = "%s >= 0" % g.expr() if r.random() < 0.5 else None
             t["locs"].append({"id": "id%d_%d" % (ti, li), "name": "L%d" % li, "inv": inv})
+        t["locs"].append({"id": "idu%d" % ti, "name": "U%d" % ti, "inv": None})      # a name no other template has
         for ei in range(r.randint(1, 4)):
             e = {"src": r.choice(t["locs"])["id"], "dst": r.choice(t["locs"])["id"], "select": [], "guard": None, "assign": None}
             g.enter([])
-            for _ in range(r.choice([0, 0, 1, 2])):
-                n = r.choice(POOL)
+            # error path: an edge whose target is a location of an *earlier template* (the id resolves in the reader's table, the
+            # name does not resolve in this template): proc_edge_begin fails, its dummy frame must still be popped by proc_edge_end
+            bad = (not clean) and ti > 0 and r.random() < 0.25
+            if bad:
+                e["dst"], e["dst_name"] = "idu%d" % (ti - 1), "U%d" % (ti - 1)
+            for _ in range(0 if bad else r.choice([0, 0, 1, 2])):
+                n = g.binder()
                 if n in g.open[-1]:
                     continue
                 e["select"].append((n, g.declare(n)))
@@ -286,7 +317,15 @@ def gen_case(r):
                 args = [g.use() for _ in range(n)]
             g.leave()
             m["system"].append("Q%d(const int[0,%d] %s) = %s(%s);" % (ti, ks[0], b, t["name"], ", ".join(args)))
-            m["processes"].append("Q%d" % ti)
+            if clean and r.random() < 0.7:
+                # a second instantiation step: R = Q(v).  Members of R whose type mentions a template parameter must have the argument
+                # of *whichever step bound it* substituted (yd: bound through b in this step; ye: bound to a constant in the first step)
+                v = r.randint(0, min(3, ks[0]))
+                m["system"].append("R%d = Q%d(%d);" % (ti, ti, v))
+                m["processes"].append("R%d" % ti)
+                m["chains"].append(("R%d" % ti, ti, v, int(args[-1]) if n > 1 else None))
+            else:
+                m["processes"].append("Q%d" % ti)
     return m, g
 
 
@@ -301,7 +340,7 @@ def lib_bindings(trace_lines):
             continue
         toks = l.split()
         name = toks[3].strip('"')
-        if name not in POOL:
+        if name not in NAMES:
             continue
         f = dict(x.split("=", 1) for x in toks[toks.index("|") + 1:] if "=" in x)
         if f.get("t") == "1" or "BT" not in f:
@@ -321,8 +360,8 @@ def run(ctx):
         core.write_if_changed(os.path.join(core.LEAN_DIR, "UtapModel", "Gen", "C16Grammar.lean"), GR.lean_text(prods))
         cov["productions_translated"] = len(prods)
     except GR.TranslateError as ex:
-        ctx.proof_broken("translate/c16_grammar.py", str(ex), "nothing could be run")
-        return
+        # go on with the table of the last good run: the correspondence / oracle below looks for the failing input
+        ctx.proof_broken("translate/c16_grammar.py", str(ex), "correspondence and oracle of this run found no failing input")
     ok, log = ctx.prove(MODULE, ["drv_c07", "drv_c08"])
     if not ok:
         ctx.log("proof broken:", core.failing_theorems(log) or log[-1500:])
@@ -414,7 +453,7 @@ def run(ctx):
             mdis.append((c, "stack depth: " + mm[0]))
             continue
         mb = [(l.split()[1].strip('"'), l.split()[2]) for l in mo if l.startswith("B ")]
-        mb = [x for x in mb if x[0] in POOL]
+        mb = [x for x in mb if x[0] in NAMES]
         lb = lib_bindings(res[c[0]])
         if len(mb) != len(lb):
             mdis.append((c, "number of identifier uses differs: model %d library %d" % (len(mb), len(lb))))
@@ -450,14 +489,38 @@ def run(ctx):
                 continue
             pn, args = t["inst"]
             for nm, kl in t["tdecl"].items():
-                if len(kl) == 1:
+                if len(kl) == 1 and nm != TY:      # `P.ty` in a query is lexed at global level, where ty is the type name
                     qs.append("E<> %s.%s >= 0" % (pn, nm))
                     exp.append(("DOT", pn, nm, kl[0]))
             if t["pnames"] and re.match(r"\d+$", args[0]):
                 qs.append("E<> %s.yd%d >= 0" % (pn, ti))
                 exp.append(("DOTSUBST", pn, "yd%d" % ti, int(args[0])))
+            if len(t["pnames"]) > 1 and re.match(r"\d+$", args[-1]):
+                qs.append("E<> %s.ye%d >= 0" % (pn, ti))
+                exp.append(("DOTSUBST", pn, "ye%d" % ti, int(args[-1])))
+        for pn, ti, v, last in m["chains"]:
+            qs.append("E<> %s.yd%d >= 0" % (pn, ti))
+            exp.append(("DOTSUBST", pn, "yd%d" % ti, v))
+            if last is not None:
+                qs.append("E<> %s.ye%d >= 0" % (pn, ti))
+                exp.append(("DOTSUBST", pn, "ye%d" % ti, last))
         qmeta["q%d" % i] = (qs, exp)
         qcases.append(("q%d" % i, render_xml(m), "\n".join(qs)))
+    # many two-step instantiations in one model: which step's argument is substituted first depends on the addresses of the parameter
+    # symbols (instance_t::mapping is a std::map over symbol_t), so one chain alone exercises one order only
+    nchain = 30
+    cx = ['<?xml version="1.0" encoding="utf-8"?><nta><declaration>int gz;</declaration>',
+          '<template><name>T</name><parameter>const int[0,9] p, const int[0,9] q</parameter><declaration>int[0,p] yd0; int[0,q] ye0;</declaration>'
+          '<location id="id0"><name>L</name></location><init ref="id0"/></template>',
+          "<system>" + "\n".join("Q%d(const int[0,9] m%d) = T(m%d, %d);\nR%d = Q%d(%d);" % (i, i, i, (i + 3) % 9 + 1, i, i, i % 9 + 1) for i in range(nchain)),
+          "system %s;</system></nta>" % ", ".join("R%d" % i for i in range(nchain))]
+    cqs, cexp = [], []
+    for i in range(nchain):
+        cqs += ["E<> R%d.yd0 >= 0" % i, "E<> R%d.ye0 >= 0" % i]
+        cexp += [("DOTSUBST", "R%d" % i, "yd0", i % 9 + 1), ("DOTSUBST", "R%d" % i, "ye0", (i + 3) % 9 + 1)]
+    models.append(({"globals": [], "templates": [], "system": [], "processes": [], "chains": [], "xml": "\n".join(cx)}, Gen(r)))
+    qmeta["q%d" % (len(models) - 1)] = (cqs, cexp)
+    qcases.append(("q%d" % (len(models) - 1), "\n".join(cx), "\n".join(cqs)))
     qtext = "".join("%s %s %s\n" % (cid, base64.b64encode(x.encode()).decode(), base64.b64encode(q.encode()).decode()) for cid, x, q in qcases)
     rc, out, err, _ = core.run_exe(exe07, ["batch"], stdin_text=qtext, timeout=900, env=C08.ABORT_ENV)
     if rc != 0:
@@ -511,9 +574,10 @@ def run(ctx):
         cid, q, what = qdis[0]
         i = int(cid[1:])
         ctx.finding("query:" + ("process-member" if "." in q.split()[1] else "identifier"), "query %r: %s (%d of %d)" % (q, what, len(qdis), nq),
-                    {"format": "xml", "input_b64": base64.b64encode(render_xml(models[i][0]).encode()).decode(), "query": q, "observed": what})
+                    {"format": "xml", "input_b64": base64.b64encode((models[i][0].get("xml") or render_xml(models[i][0])).encode()).decode(), "query": q,
+                     "observed": what})
     cov["evaluations"] = n_uses + nq
-    cov["distinct_nontrivial"] = sum(1 for _, g in models if len(set(g.ev)) > 8)
+    cov["distinct_nontrivial"] = sum(1 for _, g in models[:n] if len(set(g.ev)) > 8)
     cov["rule"] = "library binding (type int[0,K] of the bound symbol) = declarative nearest-enclosing / last-preceding binding computed by drv_c07"
     cov["samples"] = [{"script": " ".join(models[i][1].ev)[:400], "driver": drv[i][:300] if i < len(drv) else None} for i in range(min(3, n))]
     if not ok:
